@@ -101,8 +101,10 @@ func c13Stress(c *rt.C) {
 	}
 	perturb := pick(r, 0, 1, 4, 8)
 	if perturb > 0 {
-		y := yielder(r.Int63(), perturb)
-		skiplist.VerifSetHook(func(id int, arg unsafe.Pointer) { y() })
+		ps := r.Int63()
+		y := yielder(ps, perturb)
+		pt := perturber(ps, perturb)
+		skiplist.VerifSetHook(func(id int, arg unsafe.Pointer) { pt(id) })
 		if e.a != nil {
 			e.a.SetYield(y)
 		}
